@@ -10,6 +10,7 @@ CONFIGS = {
     "alloc-set-lossy": dict(modes=("allocate", "set"), nmsg=(1, 1), eager=False, max_opens=4),
     "alloc-input-lossy": dict(modes=("allocate", "input"), nmsg=(1, 1), eager=False, max_opens=4),
     "set-set-eager": dict(modes=("set", "set"), nmsg=(2, 1), max_opens=4),
+    "set-set-lossy-lazy": dict(modes=("set", "set"), nmsg=(1, 1), eager=False, canon="lazy", max_opens=4),
 }
 RESEND = {"claim": "claimed", "release": "released", "open": None, "allocate": "allocated", "list": "nameplates"}
 
@@ -21,7 +22,10 @@ class LossExplore(Explore):
 
     def violations(self, sim, when):
         out = []
-        if any(c.errors for c in sim.cl):
+        for c in sim.cl:
+            for (what, etype, msg) in c.errors:
+                out.append(("internal failure while resuming the session", "%s: %s %s: %s" % (c.name, what, etype, msg)))
+        if out:
             return out
         for i, c in enumerate(sim.cl):
             tags = [e[0] for e in c.ev]
